@@ -211,6 +211,8 @@ func (h *harness) run() {
 	lap("std objects")
 	h.idctSection()
 	lap("idct")
+	h.pngFilterSection()
+	lap("png filters")
 	h.hashSection()
 	lap("hash reference")
 	h.matrixSection()
@@ -719,6 +721,80 @@ func (h *harness) idctSection() {
 	}
 	if !haveAvx {
 		r.Count("skipped:idct-avx2(no avx2 on this host)")
+	}
+}
+
+// ---------------------------------------------------------------- PNG row filters, function level
+
+// pngFilterSection calls the four row filters that have SSE4.2 twins directly (portable fallback
+// and SSE4.2 variant on the same row) and ties both to Model/PngFilterSse.lean.
+func (h *harness) pngFilterSection() {
+	r := h.r
+	rd := r.Rand.Fork()
+	pl := h.pools["default"]
+	haveSse := strings.Contains(h.fl[0].have, "sse42") && strings.Contains(h.fl[0].macros, "v2")
+	per := 50
+	if r.Thorough {
+		per = 600
+	}
+	for _, fd := range [][2]int{{1, 4}, {3, 4}, {4, 3}, {4, 4}} {
+		f, d := fd[0], fd[1]
+		for i := 0; i < per; i++ {
+			px := 1 + rd.Intn(40)
+			if i%10 == 0 {
+				px = 1 + i/10 // every small width once
+			}
+			n := px * d
+			gen := func() []byte {
+				b := make([]byte, n)
+				switch rd.Intn(4) {
+				case 0:
+					copy(b, rd.Bytes(n))
+				case 1: // small slowly varying values: equal neighbours, Paeth ties
+					v := byte(rd.Intn(256))
+					for k := range b {
+						if rd.Intn(4) == 0 {
+							v += byte(rd.Intn(3)) - 1
+						}
+						b[k] = v
+					}
+				case 2: // extremes
+					for k := range b {
+						b[k] = []byte{0, 255, 1, 254, 128, 127}[rd.Intn(6)]
+					}
+				default: // odd / even mixes (rounding of the average)
+					for k := range b {
+						b[k] = byte(rd.Intn(256)) | byte(k&1)
+					}
+				}
+				return b
+			}
+			curr := gen()
+			prev := gen()
+			prevHex := hlib.Hex(prev)
+			if f == 3 && i%5 == 4 {
+				prevHex = "-" // first row of an image: the other branch of filter 3
+			}
+			cmd := fmt.Sprintf("pngfilter %d %d %s %s", f, d, hlib.Hex(curr), prevHex)
+			ans := pl.ask(cmd)
+			kv := fieldsKV(ans)
+			op := cmd
+			if !haveSse {
+				op = "pngfilterp" + cmd[len("pngfilter"):]
+			}
+			r.Op(op, ans)
+			r.Count(fmt.Sprintf("pngfilter:f%d:d%d", f, d))
+			if haveSse && kv["p"] != kv["s"] {
+				r.Fail(fmt.Sprintf("png-filter:sse42-differs:f%d:d%d", f, d), "the portable and the SSE4.2 PNG row filter give different bytes on the same row", cmd)
+			}
+			if ans2 := h.pools["noarch"].ask(cmd); fieldsKV(ans2)["p"] != kv["p"] {
+				r.Fail("png-filter:portable-differs-across-builds", "the portable PNG row filter gives different bytes in the default and AVOID_CPU_ARCH builds", cmd)
+			}
+			r.Nontrivial(fmt.Sprintf("pngfilter:%d:%d:%s", f, d, hlib.Hex(curr)))
+		}
+	}
+	if !haveSse {
+		r.Count("skipped:pngfilter-sse42(no sse4.2 on this host)")
 	}
 }
 
